@@ -1,0 +1,8 @@
+//go:build !verif
+
+// Package verifhook provides event points for the external verification harness.
+// Without the "verif" build tag every call is a no-op.
+package verifhook
+
+// At marks an event point. It does nothing unless built with -tags verif.
+func At(point string, arg any) {}
